@@ -11,7 +11,7 @@ def run(ctx):
     ctx.cov["checker_cmd"] = "tlc MC_LiveDecoder (FilterExact on the lock-step product) ; vh live-walk -mode twin ; tlc Trace_Live (judge=twin)"
     ctx.cov["trusted_base"] = ["TLC", "LiveDecoder!Passes as the definition of the three classes", "walker's 3-line mirror of Passes (alarms re-judged by TLC)"]
     ctx.assumptions += ["only the relation between the two real runs is judged here; what the all-on run must deliver is C04/C06",
-                        "midicatdrv's copy of the filter is exercised in C17's harness"]
+                        "midicatdrv's copy of the filter: twin histories on the real driver against the stand-in helper pair"]
     ctx.model_check("MC_LiveDecoder")
     gp, nn, ne = live.graph(ctx, "MC_LiveG.cfg")
     res, fails = live.walk(ctx, gp, "listen", 2 if q else 3, 0 if q else 2000, "twin", mode="twin")
@@ -29,7 +29,15 @@ def run(ctx):
         return False
     ctx.count(len(recs), [hash(str(r["chunks"])) for r in recs if filtered_class_present(r)],
               [{"cap": r["cap"], "sysex": r["sysex"], "as": r["as"], "tc": r["tc"], "chunks": r["chunks"][:3], "twin": r["twin"][:3]} for r in recs[:2]])
-    ctx.report(fails, live.confirm_factory(ctx))
+    # the process-backed driver has its own copy of the filter (drivers/midicatdrv/in.go)
+    from props import mcat
+    fails += mcat.run_filter(ctx)
+    ctx.report(fails, lambda f: mcat.confirm_filter(ctx, f) if f.payload.get("family") == "mcat-filter" else live.confirm_factory(ctx)(f))
 
 
-replay = live.replay
+def replay(ctx, payload):
+    if payload["payload"].get("family") == "mcat-filter":
+        from props import mcat
+        from vlib.engine import Failure
+        return mcat.confirm_filter(ctx, Failure("", "", payload["payload"]))
+    return live.replay(ctx, payload)
